@@ -142,6 +142,31 @@ def serial_case(d, depth, planetary, fmt, mode, part):
                 toast.sample_layer_filtered(pio, lambda t: True, SAMPLERS[sampler], depth, coordsys=cs, parallel=1)
                 for p in allpos:
                     expected[p] = expected_tile(*p, planetary, sampler)
+            elif mode == "clobber-cap":
+                # a sampler that is undefined over whole tiles, onto a fresh directory: those tiles are not stored
+                toast.sample_layer(pio, SAMPLERS["cap"], depth, coordsys=cs, parallel=1)
+                for p in allpos:
+                    e = expected_tile(*p, planetary, "cap")
+                    if not np.all(np.isnan(e)):
+                        expected[p] = e
+            elif mode == "cli-allsky":
+                # the tile-allsky command on a small plate-carree map: tiles = the documented sampler at the
+                # reference coordinates (the samplers themselves are C11's subject)
+                from toasty import cli, samplers
+                from PIL import Image as PI
+
+                # 30 x 15 cells of 12 degrees: no cell boundary falls on the 45-degree meridians, where TOAST
+                # pixel centres lie exactly (such points could legitimately resolve to either neighbour)
+                yy, xx = np.mgrid[0:15, 0:30]
+                rgbmap = np.stack([(xx * 8) % 256, (yy * 16) % 256, (xx + yy) % 256], axis=-1).astype(np.uint8)
+                src = os.path.join(d, "map.png")
+                PI.fromarray(rgbmap).save(src)
+                proj = "plate-carree-planet" if planetary else "plate-carree"
+                cli.entrypoint(["tile-allsky", "--placeholder-thumbnail", "--projection", proj, "--parallelism", "1", "--outdir", root, src, str(depth)])
+                smp = (samplers.plate_carree_planet_sampler if planetary else samplers.plate_carree_sampler)(rgbmap)
+                for p in allpos:
+                    lon, lat = ref_coords(*p, planetary)
+                    expected[p] = smp(lon, lat)
             elif mode == "clobber-over-existing":
                 # an earlier complete sampling, then a clobbering re-sampling whose sampler is undefined over
                 # whole tiles: those tiles must not keep their old content (an all-undefined tile is not stored)
@@ -174,6 +199,9 @@ def serial_case(d, depth, planetary, fmt, mode, part):
                         b = expected_tile(*p, planetary, "scalar2")
                         a = np.where(np.isnan(b), a, b)
                     expected[p] = a
+    except SystemExit as e:
+        bad("exits", "exit code %r" % (e.code,))
+        return
     except Exception as e:
         bad("raises:%s" % type(e).__name__, repr(e))
         return
@@ -338,7 +366,11 @@ def run(tier, seed):
     for depth in depths:
         for planetary in (False, True):
             for fmt in ("png", "npy", "fits"):
-                for mode in ("clobber", "update-all", "update-partial", "clobber-over-existing"):
+                for mode in ("clobber", "update-all", "update-partial", "clobber-over-existing", "clobber-cap", "cli-allsky"):
+                    if mode == "clobber-cap" and (fmt == "png" or depth < 2):
+                        continue
+                    if mode == "cli-allsky" and (fmt != "png" or depth not in (1, 2)):
+                        continue
                     if mode == "update-partial" and (fmt == "png" or depth == 0):
                         continue
                     if mode == "clobber-over-existing" and (fmt == "png" or depth < 2):
